@@ -432,3 +432,9 @@ V("c08-preserving-hbar-alias", "C08", "silent",
 V("c03-denominator-len-samples", "C03", {"rule": "C03a", "contains": "denominator"},
   (GSS, "    return [\n        Branch(state=None, outcome=outcome, frequency=Fraction(1, shots))\n        for outcome in samples\n    ]\n\n\ndef _get_particle_number_measurement_samples(",
    "    total = len(samples) + 1\n    return [\n        Branch(state=None, outcome=outcome, frequency=Fraction(1, total))\n        for outcome in samples\n    ]\n\n\ndef _get_particle_number_measurement_samples("))
+V("c12-state-copy-shallow", "C12", {"rule": "C12b", "contains": "copy"},
+  ("piquasso/api/state.py", "        return copy.deepcopy(self)", "        return copy.copy(self)"))
+V("c12-purefock-copy-shares-vector", "C12", {"rule": "C12b", "contains": "copy"},
+  ("piquasso/_simulators/fock/pure/state.py", "        state.state_vector = self._connector.np.copy(self.state_vector)", "        state.state_vector = self.state_vector"))
+V("c12-instruction-copy-shallow", "C12", {"rule": "C12b", "contains": "copy"},
+  ("piquasso/core/_mixins.py", "        return copy.deepcopy(self)", "        return copy.copy(self)"))
